@@ -13,6 +13,7 @@ case $V in
   asan)   CC=clang; CXX=clang++; LF="-O1 -fsanitize=address,undefined -fno-sanitize-recover=undefined -fno-omit-frame-pointer"; HV=asan; LSAN="-fsanitize=address,undefined";;
   asan-ndebug) CC=clang; CXX=clang++; LF="-O1 -DNDEBUG -fsanitize=address,undefined -fno-sanitize-recover=undefined -fno-omit-frame-pointer"; HV=asan; LSAN="-fsanitize=address,undefined";;
   tsan)   CC=clang; CXX=clang++; LF="-O1 -fsanitize=thread"; HV=tsan; LSAN="-fsanitize=thread";;
+  vg)     CC=gcc;   CXX=g++;     LF="-O1";            HV=plain; LSAN="";;   # run under valgrind memcheck by ./check (uninitialised-value decisions, C08)
   preempt) CC=clang; CXX=g++;    LF="-O1 -fsanitize=thread"; HV=preempt; LSAN="";;   # instrumentation only, hooks in sim/preempt.cc, no TSan runtime
   *) echo "unknown variant $V" >&2; exit 2;;
 esac
